@@ -130,16 +130,40 @@ const SPECIAL_CHARS: &[char] = &[
 
 /// arbitrary Unicode string without NUL, `min..=max` chars
 pub fn random_string(rng: &mut StdRng, min: usize, max: usize) -> String {
-    let n = match rng.gen_range(0 .. 10) {
+    let empty = STRCLASS.with(|s| s.borrow().as_str() == "empty");
+    let n = if empty { min } else { match rng.gen_range(0 .. 10) {
         0 => min,
         1 => max,
         2 ..= 5 => rng.gen_range(min ..= max.min(min + 12)),
         _ => rng.gen_range(min ..= max),
-    };
+    } };
     (0 .. n).map(|_| random_char(rng)).collect()
 }
 
+thread_local! {
+    /// string class override (C19): "" = the usual mix; "plain" | "markup" | "control" | "nonascii" | "empty"
+    pub static STRCLASS: RefCell<String> = const { RefCell::new(String::new()) };
+    /// cap 64-bit draws below 2^63 (BSON has no unsigned 64-bit integer)
+    pub static CAP_U63: std::cell::Cell<bool> = const { std::cell::Cell::new(false) };
+}
+
+pub fn set_strclass(c: &str) { STRCLASS.with(|s| *s.borrow_mut() = c.to_string()); }
+
 pub fn random_char(rng: &mut StdRng) -> char {
+    let class = STRCLASS.with(|s| s.borrow().clone());
+    match class.as_str() {
+        "plain" | "empty" => return rng.gen_range(b'a' ..= b'z') as char,
+        "markup" => {
+            return if rng.gen_bool(0.5) { ['<', '>', '&', '"', '\'', '/', '=', ']', '!', '-', ';', '#'][rng.gen_range(0 .. 12)] } else { rng.gen_range(b'a' ..= b'z') as char }
+        }
+        "control" => {
+            return if rng.gen_bool(0.4) { char::from_u32(rng.gen_range(1u32 ..= 0x1f)).unwrap() } else if rng.gen_bool(0.2) { ['\u{7f}', '\u{85}', '\u{9f}'][rng.gen_range(0 .. 3)] } else { rng.gen_range(b'a' ..= b'z') as char }
+        }
+        "nonascii" => {
+            return if rng.gen_bool(0.6) { ['é', 'ß', 'Ж', '日', '本', '😀', '\u{a0}', '\u{ff}', '\u{100}', '\u{fffd}', '\u{2028}', '\u{10ffff}'][rng.gen_range(0 .. 12)] } else { rng.gen_range(b'a' ..= b'z') as char }
+        }
+        _ => {}
+    }
     match rng.gen_range(0 .. 10) {
         0 ..= 5 => rng.gen_range(b'a' ..= b'z') as char,
         6 => rng.gen_range(b'0' ..= b'9') as char,
@@ -150,14 +174,22 @@ pub fn random_char(rng: &mut StdRng) -> char {
 
 /// string over chars accepted by `ok`
 pub fn random_string_where(rng: &mut StdRng, min: usize, max: usize, ok: impl Fn(char) -> bool) -> String {
-    let n = match rng.gen_range(0 .. 10) {
+    let empty = STRCLASS.with(|s| s.borrow().as_str() == "empty");
+    let n = if empty { min } else { match rng.gen_range(0 .. 10) {
         0 => min,
         1 => max,
         2 ..= 5 => rng.gen_range(min ..= max.min(min + 12)),
         _ => rng.gen_range(min ..= max),
-    };
+    } };
     let mut s = String::new();
+    let mut tries = 0;
     while s.chars().count() < n {
+        tries += 1;
+        if tries > 10_000 {
+            // the class has too few characters the format allows: fall back to letters
+            s.push(rng.gen_range(b'a' ..= b'z') as char);
+            continue;
+        }
         let c = random_char(rng);
         if ok(c) {
             s.push(c);
